@@ -244,6 +244,9 @@ pub fn fault_families() -> Vec<(u32, GenParams)> {
                 ..GenParams::default()
             },
         ),
+        // in-block destroy / re-create over backing storage: slots masked by a reset marker must not
+        // be fetched (a fault on such a key is invisible to in-order execution)
+        (2, GenParams { family: "fault-reborn", txs: (3, 8), ..crate::props::reborn_family() }),
     ]
 }
 
